@@ -49,6 +49,11 @@ pub fn tokens_to_strings(tokens: &[Token]) -> Vec<String> {
                     return format!(".{fraction}");
                 } else if text == "0" {
                     return ".0".to_string();
+                } else if text == "1" {
+                    // A fraction too close to one to be told apart from it
+                    // (`.99999999999999999999`) is stored as 1; twenty nines
+                    // read back as exactly that.
+                    return ".99999999999999999999".to_string();
                 }
             }
             text
